@@ -31,9 +31,45 @@ def observe(V):
     )
     obs["face_area_forms"] = C.face_area_forms(p, obs["face_areas"])
     obs["float32_form"] = C.float32_probe(coxeter.shapes.ConvexPolyhedron, V)
+    obs["copies"] = C.copy_probe(lambda: coxeter.shapes.ConvexPolyhedron(np.array(V, dtype=np.float64)),
+                                 lambda s_: dict(volume=s_.volume, surface_area=s_.surface_area, centroid=s_.centroid, inertia=s_.inertia_tensor))
+    obs["handed_out"] = handed_out_probe(V)
     # (last: this resizes p) the measures are those of the solid as it is now, also when they were asked for before a resize
     obs["after_resize"] = C.resize_probe(p, lambda s_: coxeter.shapes.ConvexPolyhedron(np.array(s_.vertices)))
     return obs
+
+
+def handed_out_probe(V):
+    """The centroid the solid hands out is used to put the solid back where it was (the solid's own to_hoomd does the same): moved to the
+    origin and back - by hand with the array read earlier, or through to_hoomd - the solid reports the measures of the given points again."""
+    import coxeter
+    V = np.array(V, dtype=np.float64)
+    R = float(np.max(np.abs(V))) + 1e-300
+    probs = []
+    try:
+        ref = coxeter.shapes.ConvexPolyhedron(V.copy())
+        cen0, I0 = np.array(ref.centroid, float), np.array(ref.inertia_tensor, float)
+    except Exception:  # noqa: BLE001
+        return probs
+    for how in ("centroid read, moved to the origin, moved back to the centroid read", "to_hoomd()"):
+        try:
+            p = coxeter.shapes.ConvexPolyhedron(V.copy())
+            if how == "to_hoomd()":
+                p.to_hoomd()
+            else:
+                c = p.centroid
+                p.centroid = [0.0, 0.0, 0.0]
+                p.centroid = c
+            got = dict(vertices=np.array(p.vertices, float), centroid=np.array(p.centroid, float), center=np.array(p.center, float),
+                       inertia=np.array(p.inertia_tensor, float))
+        except Exception as e:  # noqa: BLE001
+            probs.append("%s raised %s" % (how, type(e).__name__))
+            continue
+        for n, want, k in (("vertices", V, 1), ("centroid", cen0, 1), ("center", cen0, 1), ("inertia", I0, 5)):
+            if got[n].shape != want.shape or not np.all(np.abs(got[n] - want) <= 1e-6 * C.conditioning(V) * R ** k):
+                probs.append("after %s: %s is %s, the given points have %s" % (how, n, np.round(got[n], 9).ravel()[:6].tolist(), np.round(want, 9).ravel()[:6].tolist()))
+                break
+    return probs
 
 
 def judge(chk, tag, V, obs, code, spec, fc_specs):
@@ -84,6 +120,10 @@ def judge(chk, tag, V, obs, code, spec, fc_specs):
         fails.append(("measures-stale-after-resize", prob))
     for prob in obs.get("float32_form", [])[:1]:
         fails.append(("input-element-type-changes-measures", prob))
+    for prob in obs.get("copies", [])[:1]:
+        fails.append(("copy-not-an-independent-solid", prob))
+    for prob in obs.get("handed_out", [])[:1]:
+        fails.append(("measures-not-those-of-the-points-after-moving-back", prob))
     # a "face" is one facet of the hull: the simplices grouped into it must be coplanar (exactly, for the dyadic inputs used here;
     # 1e-10 of the size allowed) - otherwise per-face areas and face centroids describe something that is not a face
     Vv, Ss = obs["vertices"], obs["simplices"]
